@@ -15,7 +15,6 @@ import (
 	"context"
 	"fmt"
 	"math"
-	"os"
 	"reflect"
 	"regexp"
 	"sort"
@@ -59,9 +58,6 @@ type Case struct {
 	N     int    `json:"n,omitempty"`    // literal argument count of call-like templates
 	Name  string `json:"name,omitempty"` // member name
 	Slots []Slot `json:"slots"`
-	// Subst records that the generator replaced a drawn shape (known finding
-	// excluded by construction); it only feeds a class counter.
-	Subst string `json:"subst,omitempty"`
 }
 
 // ---------------------------------------------------------------- values
@@ -102,6 +98,7 @@ var compounds = []compound{
 	{"pt_int5", "ptr", fm("$ = new(int64)\n*$ = 5"), "*int64", -1},
 	{"pt_bool", "ptr", fm("$ = new(bool)\n*$ = true"), "*bool", -1},
 	{"pt_str", "ptr", fm("$ = new(string)\n*$ = \"a\""), "*string", -1},
+	{"pt_nil", "ptr", fm(`$ = make([]*int64, 1)[0]`), "*int64", -1},
 	{"pt_iface", "ptr", fm("w$ = 3\n$ = &w$"), "", -1},
 	{"pt_slice", "ptr", fm("$ = new([]int64)\n*$ = []int64{1, 2}"), "*[]int64", -1},
 	{"pt_struct", "ptr", fm("$ = new(struct{A int64, B string})\n$.A = 4"), "", -1},
@@ -141,7 +138,7 @@ func init() {
 	kindsByCat["iterable"] = append(append(append([]string{}, kindsByCat["slice"]...), kindsByCat["map"]...), "ch_closed", "ch_closed_empty")
 	kindsByCat["hasmember"] = append(append(append([]string{}, kindsByCat["map"]...), kindsByCat["struct"]...), "mod", "pt_struct", "mod")
 	kindsByCat["settable"] = append(append([]string{}, kindsByCat["map"]...), "mod", "pt_struct", "pt_struct", "mod")
-	kindsByCat["truthy"] = []string{"true", "false", "int", "float", "str", "nil", "sl_empty", "sl_ints", "mp_empty", "mp_str", "pt_int0", "pt_int5", "pt_bool", "pt_str"}
+	kindsByCat["truthy"] = []string{"true", "false", "int", "float", "str", "nil", "sl_empty", "sl_ints", "mp_empty", "mp_str", "pt_int0", "pt_int5", "pt_bool", "pt_str", "pt_nil"}
 	kindsByCat["key"] = []string{"str", "int", "str", "true", "float"}
 	kindsByCat["sliceish"] = kindsByCat["slice"]
 	// the "any" distribution gives every category a comparable share
@@ -304,15 +301,23 @@ func effIface(chain []string) bool {
 	return st
 }
 
-// Known finding F-ptr-through-interface (see the report / KNOWN_FINDINGS): the
-// conversions toBool/tryToInt/... and equal() strip exactly ONE level of
-// pointer-or-interface, so a pointer variable is dereferenced where the same
-// pointer wrapped in an interface value is not. Affected are the operand
-// positions that do not unwrap before converting. Set C20_KEEP_KNOWN=1 to
-// generate the shape anyway (e.g. after the defect was repaired).
+// F-ptr-through-interface (repaired in /repo by a54f5fc): the conversions
+// toBool/tryToInt/... and equal() stripped exactly ONE level of
+// pointer-or-interface, so a pointer variable was dereferenced where the same
+// pointer wrapped in an interface value was not. Affected were the operand
+// positions that do not unwrap before converting. The shape is generated and
+// asserted like any other; it keeps its own class counter and, should it
+// regress, its own signature (one per conversion routine).
 var noUnwrapPos = map[string][]int{
 	"if": {0}, "forcond": {0}, "ternary": {0}, "in": {0}, "switch": {0, 1},
 	"makeslice": {0}, "makechan": {0}, "slice": {1, 2}, "index": {1}, "letmapitem": {1},
+}
+
+// the conversion routine that strips only one level, per template
+var knownConv = map[string]string{
+	"if": "toBool", "forcond": "toBool", "ternary": "toBool",
+	"in": "equal", "switch": "equal",
+	"makeslice": "toInt", "makechan": "toInt", "slice": "toInt", "index": "toInt", "letmapitem": "toInt",
 }
 
 func knownPtrShape(c Case, i int) bool {
@@ -326,8 +331,6 @@ func knownPtrShape(c Case, i int) bool {
 	}
 	return false
 }
-
-var keepKnown = os.Getenv("C20_KEEP_KNOWN") != ""
 
 func genChain(t *rapid.T, v Val, force bool) []string {
 	if !force && rapid.IntRange(0, 9).Draw(t, "baseline?") < 3 {
@@ -356,7 +359,6 @@ type template struct {
 	weight int
 	prefs  []string // natural category per slot
 	ops    []string // variants (Op)
-	gen    func(t *rapid.T, c *Case)
 }
 
 var binOps = []string{"+", "-", "*", "/", "%", "&", "|", "<<", ">>", "==", "!=", "<", "<=", ">", ">=", "&&", "||"}
@@ -501,20 +503,6 @@ func genCase(t *rapid.T) Case {
 	if !any {
 		i := rapid.IntRange(0, len(c.Slots)-1).Draw(t, "forced-slot")
 		c.Slots[i].Chain = genChain(t, c.Slots[i].V, true)
-	}
-	if !keepKnown {
-		for i := range c.Slots {
-			if knownPtrShape(c, i) {
-				// excluded by construction: same template and chain, scalar operand
-				c.Slots[i].V = genScalar(t, pick(t, "subst", scalarKinds))
-				c.Subst = "ptr-through-interface"
-				for j, hp := range c.Slots[i].Chain {
-					if hp == "sfield_t" && c.Slots[i].V.fieldType() == "" {
-						c.Slots[i].Chain[j] = "sfield_i"
-					}
-				}
-			}
-		}
 	}
 	return c
 }
@@ -944,8 +932,10 @@ func oracle(c Case, o *h.Obs) *h.Fail {
 		}
 	}
 	o.Class("chainlen:%d", maxLen)
-	if c.Subst != "" {
-		o.Class("by-construction-excluded:" + c.Subst + "|" + c.T)
+	for i := range c.Slots {
+		if knownPtrShape(c, i) {
+			o.Class("ptr-through-interface|" + c.T)
+		}
 	}
 
 	b := run(c, baseSrc)
@@ -997,8 +987,9 @@ func oracle(c Case, o *h.Obs) *h.Fail {
 	hop := differingHop(c, b, clause)
 	for i := range c.Slots {
 		if knownPtrShape(c, i) && (hop == lastHop(c.Slots[i]) || strings.HasPrefix(hop, fmt.Sprintf("slot%d:", i))) {
-			// the known finding gets its own clause; anything else keeps the generic one
-			clause = "ptr-through-interface-not-dereferenced"
+			// the known finding gets its own signature, one per conversion routine
+			// at fault; anything else keeps the generic one
+			return h.Failf("C20|ptr-through-interface-not-dereferenced|"+knownConv[c.T], "%s (template %s, last hop %s)\nbaseline program:\n%s\nchained program:\n%s", detail, tn, hop, baseSrc[len(prelude):], chSrc[len(prelude):])
 		}
 	}
 	return h.Failf("C20|"+clause+"|"+tn+"|"+hop, "%s\nbaseline program:\n%s\nchained program:\n%s", detail, baseSrc[len(prelude):], chSrc[len(prelude):])
@@ -1041,7 +1032,7 @@ func differingHop(c Case, b outcome, clause string) string {
 	return "multi:" + strings.Join(hs, "+")
 }
 
-const rule = "case = (template, operand value per slot, provenance chain per slot); templates: unary - ! ^, 17 binary operators, x[i], x[i:j], len, in, call, call argument, spread call, member, deref, for-in, switch subject/case, if/else-if, for condition, ternary, make sizes, send, receive (3 forms), close, delete, throw, x[i]=v, x.k=v, *x=v, defer, go, string repeat, typed literal element/key, ??, destructuring let/var, `a, b = m[k]`; values: nil, bools, ints (small or >=2^53), floats, strings, untyped/typed slices and maps, pointers (new(T), &v), channels (buffered, never blocking), script functions, struct values, a module; every value is created once in a prelude variable, the baseline uses the variable, the chained program routes it through 1..3 hops of {slice element, map entry [k] and .k, script call, Go id(), parentheses, ternary, ??, struct field typed interface or typed as the value}; excluded by construction: append-at-len and string element store, field store into a struct value, x++/x+=, &x, nil maps, for-in over an open channel; non-trivial = at least one slot's LAST hop is slice element, map entry, script call, Go call or interface-typed struct field (no template is a plain assignment); distinct by chained source text"
+const rule = "case = (template, operand value per slot, provenance chain per slot); templates: unary - ! ^, 17 binary operators, x[i], x[i:j], len, in, call, call argument, spread call, member, deref, for-in, switch subject/case, if/else-if, for condition, ternary, make sizes, send, receive (3 forms), close, delete, throw, x[i]=v, x.k=v, *x=v, defer, go, string repeat, typed literal element/key, ??, destructuring let/var, `a, b = m[k]`; values: nil, bools, ints (small or >=2^53), floats, strings, untyped/typed slices and maps, pointers (new(T), &v, typed nil pointer), channels (buffered, never blocking), script functions, struct values, a module; every value is created once in a prelude variable, the baseline uses the variable, the chained program routes it through 1..3 hops of {slice element, map entry [k] and .k, script call, Go id(), parentheses, ternary, ??, struct field typed interface or typed as the value}; excluded by construction: append-at-len and string element store, field store into a struct value, x++/x+=, &x, nil maps, for-in over an open channel; non-trivial = at least one slot's LAST hop is slice element, map entry, script call, Go call or interface-typed struct field (no template is a plain assignment); distinct by chained source text"
 
 func TestC20(t *testing.T) {
 	c := h.New(t, "C20")
